@@ -42,6 +42,12 @@ type Ctx struct {
 	samples       []string
 	notes         map[string]any
 	lastOp        string
+	// generic history check (see rerunEarlier)
+	recent     []pastOp
+	sinceRerun int
+	rerunEvery int
+	rerunCount int
+	noRerun    bool
 }
 
 // Try runs f (a call into the implementation made by a direct oracle) and reports whether it panicked.
@@ -146,7 +152,13 @@ func main() {
 		os.Exit(2)
 	}
 	os.MkdirAll(*out, 0o755)
-	c := &Ctx{Prop: *prop, Tier: *tier, Seed: *seed, Out: *out, hist: map[string]int{}, notes: map[string]any{}}
+	c := &Ctx{Prop: *prop, Tier: *tier, Seed: *seed, Out: *out, hist: map[string]int{}, notes: map[string]any{}, rerunEvery: 5}
+	if *tier == "thorough" {
+		c.rerunEvery = 9
+	}
+	if *prop == "C19" {
+		c.rerunEvery *= 20 // very many very cheap stateless operations
+	}
 	var err error
 	c.opsF, err = os.Create(filepath.Join(*out, "ops.txt"))
 	must(err)
@@ -226,7 +238,49 @@ func (c *Ctx) Run(op string, args ...string) string {
 	if len(args) > 0 {
 		line += " " + strings.Join(args, " ")
 	}
-	return c.Op(line, func() string { return r(c, args) })
+	out := c.Op(line, func() string { return r(c, args) })
+	c.rerunEarlier(op, args, out)
+	return out
+}
+
+// rerunEarlier: every operation compared with the model is a function of its arguments, so running an earlier
+// one again, after other operations have run in the same process, must give what it gave before. Every few
+// operations one of the recent ones is run again (implementation only; the model is not asked twice) and compared:
+// a difference is a result that depends on the history of the process.
+type pastOp struct {
+	op   string
+	args []string
+	out  string
+}
+
+func (c *Ctx) rerunEarlier(op string, args []string, out string) {
+	if c.noRerun || out == "panic" || strings.HasPrefix(op, "c17.") {
+		return
+	}
+	c.recent = append(c.recent, pastOp{op, append([]string{}, args...), out})
+	if len(c.recent) > 24 {
+		c.recent = c.recent[1:]
+	}
+	c.sinceRerun++
+	if c.sinceRerun < c.rerunEvery || len(c.recent) < 3 {
+		return
+	}
+	c.sinceRerun = 0
+	// deterministic choice: alternate between the operation just before this one and an older one
+	c.rerunCount++
+	idx := len(c.recent) - 2
+	if c.rerunCount%2 == 0 {
+		idx = (c.rerunCount * 7) % (len(c.recent) - 1)
+	}
+	p := c.recent[idx]
+	c.noRerun = true
+	again := protect(func() string { return replayers[p.op](c, p.args) })
+	c.noRerun = false
+	c.hist["rerun-of-an-earlier-op"]++
+	if again != p.out {
+		c.Direct(false, "an operation run again later in the same process gives another result (the result depends on the history of the process)",
+			map[string]any{"op": p.op + " " + strings.Join(p.args, " "), "first": trunc(p.out), "again": trunc(again), "ran_in_between": op})
+	}
 }
 
 // DirectOK is Direct that also returns the verdict.
